@@ -201,7 +201,97 @@ func (p *Planner) outcome(f *types.Var, path string, lpkg *types.Package, rtype 
 		e.Alts, e.Gray = named, gray
 		return e
 	}
+	if p.notationBelow(f, path, lpkg) {
+		// A notation addresses a member of this by-value struct: the member must be
+		// honoured "whatever ... enclosing-struct copies would do" (C06), so the struct
+		// cannot be copied as a whole; its members are matched one by one against the
+		// same-name source struct, if there is one.
+		e.Rule = "enclosing"
+		e.Alts = []Alt{{Kind: "descend"}}
+		var ctyp types.Type = types.NewStruct(nil, nil)
+		cexpr := ""
+		probe := &Expect{Path: path, Type: f.Type()}
+		saved := p.M.Opts
+		p.byName(probe, f, lpkg, rtype, rpkg, rexpr)
+		p.M.Opts = saved
+		for _, a := range probe.Alts {
+			if (a.Kind == "assign" || a.Kind == "descend") && a.Src != "" {
+				if t, _, ok, _ := p.resolveSrc(p.Src.Type, strings.Split(a.Src, ".")); ok && structOf(deref(t)) != nil {
+					if _, isPtr := t.(*types.Pointer); !isPtr {
+						ctyp, cexpr = t, a.Src
+					}
+				}
+				break
+			}
+		}
+		e.Children = p.fields(f.Type(), lpkg, ctyp, nil, path, cexpr, false)
+		return e
+	}
 	return p.byName(e, f, lpkg, rtype, rpkg, rexpr)
+}
+
+// notationBelow reports whether a :skip/:map/:conv/:literal notation addresses
+// an accessible strict sub-path of the by-value struct field f at path.
+func (p *Planner) notationBelow(f *types.Var, path string, lpkg *types.Package) bool {
+	if _, isPtr := f.Type().(*types.Pointer); isPtr {
+		return false
+	}
+	if structOf(f.Type()) == nil {
+		return false
+	}
+	var subs []string
+	var collect func(t types.Type, pkg *types.Package, pre string, depth int)
+	collect = func(t types.Type, pkg *types.Package, pre string, depth int) {
+		st := structOf(t)
+		if st == nil || depth > 5 {
+			return
+		}
+		pkg = ownerPkg(t, pkg)
+		for i := 0; i < st.NumFields(); i++ {
+			sf := st.Field(i)
+			if !p.Accessible(t, pkg, sf.Name()) {
+				continue
+			}
+			sp := pre + "." + sf.Name()
+			subs = append(subs, sp)
+			if _, isPtr := sf.Type().(*types.Pointer); !isPtr {
+				collect(sf.Type(), pkg, sp, depth+1)
+			}
+		}
+	}
+	collect(f.Type(), lpkg, path, 0)
+	o := p.M.Opts
+	for _, sp := range subs {
+		for _, s := range o.Skips {
+			if len(s.Args) > 0 {
+				if m, _ := SkipMatches(s.Args[0], sp, o.Case); m {
+					return true
+				}
+			}
+		}
+		for _, c := range o.Convs {
+			if len(c.Args) >= 2 {
+				dst := c.Args[1]
+				if len(c.Args) >= 3 {
+					dst = c.Args[2]
+				}
+				if dst == sp {
+					return true
+				}
+			}
+		}
+		for _, mp := range o.Maps {
+			if len(mp.Args) >= 2 && mp.Args[1] == sp {
+				return true
+			}
+		}
+		for _, l := range o.Lits {
+			if len(l.Args) >= 2 && l.Args[0] == sp {
+				return true
+			}
+		}
+	}
+	return false
 }
 
 // candidate is a same-name source member.
@@ -667,4 +757,73 @@ func (p *Planner) convAlts(n Notation, td types.Type) (alts []Alt, gray string) 
 		alts = append(alts, Alt{Kind: "nomatch"})
 	}
 	return alts, gray
+}
+
+// WellFormed reports whether the method follows the documented conventions so
+// that the tool has to accept it: struct (or pointer to struct) operands, valid
+// :style/:match values, :reverse only with :style arg and without additional
+// arguments, a receiver of a local type, valid :skip regexps, :conv functions
+// that exist and have an acceptable shape, and notations with all their
+// arguments.  why names the first violated convention.
+func (p *Planner) WellFormed() (ok bool, why string) {
+	o := p.M.Opts
+	if structOf(deref(p.Src.Type)) == nil || structOf(deref(p.Dst.Type)) == nil {
+		return false, "operand is not a struct"
+	}
+	if _, pp := deref(p.Src.Type).(*types.Pointer); pp {
+		return false, "pointer to pointer operand"
+	}
+	if _, pp := deref(p.Dst.Type).(*types.Pointer); pp {
+		return false, "pointer to pointer operand"
+	}
+	if o.Style != "return" && o.Style != "arg" {
+		return false, "invalid style"
+	}
+	if o.Match != "name" && o.Match != "none" {
+		return false, "invalid match"
+	}
+	if o.Reverse && (o.Style != "arg" || len(p.Args) > 0) {
+		return false, "illegal :reverse"
+	}
+	if o.Recv != "" {
+		recv := p.M.Sig.Params().At(0).Type()
+		if n, isNamed := deref(recv).(*types.Named); !isNamed || n.Obj().Pkg() == nil || n.Obj().Pkg().Path() != p.Pkg.Path() {
+			return false, "receiver of a non-local type"
+		}
+	}
+	for _, n := range p.M.Notes {
+		switch n.Name {
+		case "skip":
+			if len(n.Args) < 1 {
+				return false, "missing argument"
+			}
+			if _, valid := SkipMatches(n.Args[0], "x", true); !valid {
+				return false, "invalid regexp"
+			}
+		case "map", "literal":
+			if len(n.Args) < 2 {
+				return false, "missing argument"
+			}
+		case "conv":
+			if len(n.Args) < 2 {
+				return false, "missing argument"
+			}
+			var file *ast.File
+			var all []*Method
+			if p.M.setup != nil {
+				file, all = p.M.setup.File, p.M.setup.Methods()
+			}
+			if file == nil {
+				file = &ast.File{}
+			}
+			if _, found := p.LookupConv(n.Args[0], file, all); !found {
+				return false, "converter not found or of unacceptable shape"
+			}
+		case "style", "match", "recv", "preprocess", "postprocess":
+			if len(n.Args) < 1 {
+				return false, "missing argument"
+			}
+		}
+	}
+	return true, ""
 }
